@@ -249,6 +249,10 @@ func quote(raw []byte) []byte {
 		return []byte(`""`) // the empty string is a value too (empty StringValue, FieldMask, ...)
 	}
 	if len(raw) > 0 && (raw[0] != '"' || raw[len(raw)-1] != '"') {
+		// (a JSON string: Go's own quoting writes escapes that JSON does not have)
+		if quoted, err := json.Marshal(string(raw)); err == nil {
+			return quoted
+		}
 		raw = strconv.AppendQuote(raw[:0], string(raw))
 	}
 	return raw
